@@ -57,7 +57,7 @@ def wholeWriteF (plan : Plan) (p : Path) (data : Bytes) (i : Nat) : FRun :=
   | .ok => ⟨[(.write p data, .ok)], [.write p data], true, i + 1⟩
   | .fail => ⟨[(.write p data, .fail)], [], false, i + 1⟩
   | .short n =>
-    if n = data.length then ⟨[(.write p data, .short n)], [.write p data], true, i + 1⟩
+    if data.length ≤ n then ⟨[(.write p data, .short n)], [.write p data], true, i + 1⟩
     else ⟨[(.write p data, .short n)], [.write p (data.take n)], false, i + 1⟩
 
 /-- streaming path, one buffer: `for written < n { w, werr := out.Write(buf[written:n]) … }` -/
